@@ -29,6 +29,7 @@ type HostSpec struct {
 	Calls      []HostCall `json:"calls"`
 	Out        string     `json:"out,omitempty"`
 	Concurrent bool       `json:"concurrent,omitempty"` // real .so only: threads run freely, no baton
+	Preempt    bool       `json:"preempt,omitempty"`    // threads are goroutines of one bubble, preempted inside the export by the world's scheduler
 }
 
 type hostResult struct {
@@ -69,6 +70,24 @@ func runC16(c *Ctx) error {
 			floods = append(floods, []byte(b.String()))
 		}
 	}
+	// block-boundary sweep: well-formed UTF-8 texts in which a multi-byte
+	// character straddles a multiple of a favourite buffer size (chunked
+	// readers and writers, per-block validation, C-side buffers)
+	nBefore := len(floods)
+	for bi, B := range []int{512, 1024, 4096, 8192, 16384, 32768, 65536, 131072} {
+		for vi, ch := range []string{"\u00e9", "\u4e2d", "\U0001F600"} {
+			for off := 1; off < len(ch); off++ {
+				body := GenProg(SubSeed(c.Seed, "boundary-prog", bi*10+vi)).Render()
+				pre := "// " + strings.Repeat("a", B-off-3)
+				floods = append(floods, []byte(pre+ch+"\n"+body))
+				// ... and the same inside text the formatter keeps verbatim at the END of the file
+				if room := B - off - len(body) - 4; room > 0 {
+					floods = append(floods, []byte(body+"\n// "+strings.Repeat("b", room)+ch+" tail\n"))
+				}
+			}
+		}
+	}
+	c.ev.Fire("multibyte_character_straddles_block_boundary", len(floods)-nBefore)
 	// the repository's own sample programs, as they are and under other layouts
 	if files, _ := filepath.Glob(filepath.Join(c.sc.Src, "internal", "parser", "testdata", "*.dsl")); len(files) > 0 {
 		sort.Strings(files)
@@ -95,6 +114,14 @@ func runC16(c *Ctx) error {
 	}
 	c.logf("library export: %d host histories of %d calls", nhost, hostLen)
 	if err := ParallelFor(nhost, c.Workers, func(i int) error { return c16Host(c, pool, i, hostLen, false) }); err != nil {
+		return err
+	}
+	npre := envInt("VERIF_C16_PREEMPT", 1200)
+	if thorough {
+		npre = envInt("VERIF_C16_PREEMPT", 40000)
+	}
+	c.logf("library export: %d preemptive host worlds (2-3 threads inside the export at once, scheduler-chosen interleaving)", npre)
+	if err := ParallelFor(npre, c.Workers, func(i int) error { return c16HostPreempt(c, pool, i) }); err != nil {
 		return err
 	}
 	if nso > 0 {
@@ -532,6 +559,14 @@ func c16Host(c *Ctx, pool *Pool, i int, n int, realSO bool) error {
 	for _, s := range pending {
 		// the same token stream comes back under other white-space layouts
 		in := FormatInputLayout(s, r.Intn(4))
+		if len(spec.Calls) > 0 && r.Chance(1, 6) {
+			// an earlier text of this history again, with other white space
+			// AROUND it (line and column of a syntax error move with it)
+			prev := spec.Calls[r.Intn(len(spec.Calls))].Input
+			core := bytes.TrimSpace(prev)
+			in = append(append([]byte(r.Pick([]string{"", "\n", "\n\n", " ", "\t", "\r\n", "\n  "})), core...), []byte(r.Pick([]string{"", "\n", " ", "\n\n", "\t\n"}))...)
+			c.ev.Fire("host_input_resubmitted_with_other_surrounding_white_space", 1)
+		}
 		if bytes.Contains(in, []byte{0}) || len(in) > 400000 {
 			continue
 		}
@@ -574,9 +609,36 @@ func c16Host(c *Ctx, pool *Pool, i int, n int, realSO bool) error {
 		c.ev.Count("host_calls_checked", 1)
 		if v := checkHostCall(ref, &res[k]); v != nil {
 			c.candidate16Host(i, spec, k, v, realSO)
+		} else if v := c.checkErrorTextCold(ref, call, &res[k], realSO); v != nil {
+			c.candidate16Host(i, spec, k, v, realSO)
 		}
 	}
 	return nil
+}
+
+// checkErrorTextCold: "for the same input" the export is a function of its
+// input. For a syntactically invalid text the property fixes only the prefix
+// of the message, so no particular wording is demanded; but the message this
+// call returned inside a history must be the message the very same build
+// returns for the very same text in a cold single-call process. The fast path
+// (message == "Error:" + the library's error text) avoids the extra process
+// on trees that build the message the way the pinned tree does.
+func (c *Ctx) checkErrorTextCold(ref *Resp, call HostCall, got *hostResult, realSO bool) *c16Viol {
+	if ref.FormatOK || got.Panic != "" {
+		return nil
+	}
+	if string(got.Output) == "Error:"+ref.FormatErr {
+		return nil
+	}
+	c.ev.Count("host_error_texts_compared_with_cold_call", 1)
+	cold, err := runHost(c, &HostSpec{Threads: 1, Calls: []HostCall{{Thread: 0, Input: call.Input}}}, realSO)
+	if err != nil || cold == nil || cold[0].Panic != "" {
+		return nil
+	}
+	if bytes.Equal(cold[0].Output, got.Output) {
+		return nil
+	}
+	return &c16Viol{"error-text-depends-on-history", fmt.Sprintf("FormatPacketDslExport returns %q for a text for which the same build returns %q when it is the only call of the process (the message belongs to another input or call)", clip(string(got.Output), 200), clip(string(cold[0].Output), 200)), nil}
 }
 
 // c16HostConcurrent: several real threads inside the exported function at
@@ -768,6 +830,9 @@ func (c *Ctx) candidate16Host(caseIdx int, spec *HostSpec, k int, v *c16Viol, re
 			return nil
 		}
 		nv := checkHostCall(ref, &res[len(res)-1])
+		if nv == nil {
+			nv = c.checkErrorTextCold(ref, last, &res[len(res)-1], realSO)
+		}
 		if nv != nil && nv.class == v.class {
 			return nv
 		}
